@@ -508,26 +508,46 @@ func c08R3(p *Prog, r *Report) {
 		return
 	}
 	r.Fn(FuncName(valid))
-	// clauses of valid(): three comparisons leading to false
+	// clauses of valid(): three integer comparisons, each read as the pair of its two outcomes in
+	// the normal form P >= 0 (x < y: y-x-1 >= 0 / x-y >= 0), so that the spelling (operand order,
+	// negation, early return or one boolean expression) does not matter
 	pc := NewPolyCtx(valid)
+	clean := func(q Poly) string {
+		cl := q.String()
+		cl = regexp.MustCompile(`local\d+:`).ReplaceAllString(cl, "")
+		cl = regexp.MustCompile(`\{[^}]*\}(@\d+)?`).ReplaceAllString(cl, "")
+		return cl
+	}
+	outcomes := map[string]bool{}
 	var clauses []string
 	Instrs(valid, func(in ssa.Instruction) {
-		iff, ok := in.(*ssa.If)
-		if !ok {
-			return
-		}
-		bo, ok := iff.Cond.(*ssa.BinOp)
+		bo, ok := in.(*ssa.BinOp)
 		if !ok || !isIntLike(bo.X.Type()) {
 			return
 		}
-		cl := pc.Of(bo.X).Sub(pc.Of(bo.Y)).String() + " " + bo.Op.String() + " 0"
-		cl = regexp.MustCompile(`local\d+:`).ReplaceAllString(cl, "")
-		cl = regexp.MustCompile(`\{[^}]*\}(@\d+)?`).ReplaceAllString(cl, "")
-		clauses = append(clauses, cl)
+		x, y := pc.Of(bo.X), pc.Of(bo.Y)
+		one := polyConst(1)
+		var t, f Poly
+		switch bo.Op {
+		case token.LSS:
+			t, f = y.Sub(x).Sub(one), x.Sub(y)
+		case token.LEQ:
+			t, f = y.Sub(x), x.Sub(y).Sub(one)
+		case token.GTR:
+			t, f = x.Sub(y).Sub(one), y.Sub(x)
+		case token.GEQ:
+			t, f = x.Sub(y), y.Sub(x).Sub(one)
+		default:
+			return
+		}
+		outcomes[clean(t)] = true
+		outcomes[clean(f)] = true
+		clauses = append(clauses, clean(t)+" >= 0 | "+clean(f)+" >= 0")
 	})
 	sort.Strings(clauses)
 	joined := strings.Join(clauses, " ; ")
-	okC := strings.Contains(joined, "-4 + s.npre < 0") && strings.Contains(joined, "-4 - s.npre + s.nsamp < 0") && strings.Contains(joined, "s.nmonotone + s.npre - s.nsamp > 0")
+	// npre >= 4, nsamp - npre >= 4, nsamp - npre >= nmonotone are the accepting outcomes
+	okC := outcomes["-4 + s.npre"] && outcomes["-4 - s.npre + s.nsamp"] && outcomes["-s.nmonotone - s.npre + s.nsamp"]
 	r.Check(okC, "C08.R3", "validity = 4 samples each side for the refinement, monotone count within the post-trigger part", p.Pos(valid.Pos()), joined, "the validity rule is `"+joined+"`")
 	for _, name := range []string{"ConfigureTrigger", "ConfigurePulseLengths"} {
 		fn := p.Func("", "DataStreamProcessor", name)
@@ -644,7 +664,7 @@ func c08R5(p *Prog, r *Report) {
 	// reads in the finder and in helpers it hands the sample slice to
 	InstrsDeep(fn, 2, func(d DeepInstr) {
 		ia, ok := d.In.(*ssa.IndexAddr)
-		if !ok || ArgForParam(d.Path, ia.X) != ssa.Value(raw) {
+		if !ok || resolveCell(ArgForParam(d.Path, ia.X)) != ssa.Value(raw) {
 			return
 		}
 		n++
